@@ -227,6 +227,21 @@ int *arrNewPat(int n, int *len) {
     sim_handout(a, "newarr");
     return a;
 }
+// caller-owned memory handed back through a pointer-to-pointer / reference-to-pointer argument
+void arrFillPtr(int **out, int n) {
+    Guard g;
+    int *a = static_cast<int *>(std::malloc(sizeof(int) * (n > 0 ? n : 1)));
+    for (int i = 0; i < n; i++) a[i] = 700 + i;
+    sim_handout(a, "intarr");
+    *out = a;
+}
+void arrGrabRef(int *&out, int n) {
+    Guard g;
+    int *a = static_cast<int *>(std::malloc(sizeof(int) * (n > 0 ? n : 1)));
+    for (int i = 0; i < n; i++) a[i] = 800 + i;
+    sim_handout(a, "intarr");
+    out = a;
+}
 void arrFillOut(int n, double *out) { Guard g; for (int i = 0; i <= n; i++) out[i] = 0.5 * i; }
 int arrSum(const int *arr, int n) { Guard g; int s = 0; for (int i = 0; i < n; i++) s += arr[i]; return s + 1000000 * n; }
 void arrWeights(int *values, int nvalues, const int *weights, int nweights) { Guard g; for (int i = 0; i < nvalues; i++) values[i] *= (nweights > 0 ? weights[i % nweights] : 1); }
